@@ -171,8 +171,20 @@ pub fn run_c10(cx: &mut Cx) {
     cx.step(nodes[0], "honest-session", StepOpts::default(), move || crate::scen_robust::make_honest_with(suite, seed, hl, hm, hk, phk), move |cx, st| {
         let h = match st.out { Ok(Ok(h)) => Arc::new(h), other => { cx.log(format!("honest session failed: {:?}", other.err())); return; } };
         let n_ops = 12 + cx.ch.choose("ops", 20);
-        for k in 0..n_ops {
-            let op = gen_op(cx, k, &h);
+        for k in 0..n_ops + 2 {
+            // the last two operations of every run walk through ALL generator counts 0..=N (N = 64
+            // quick, 1100 thorough) for both suites and the plain api_id, one count per run
+            let op = if k >= n_ops {
+                let nmax = if cx.thorough { 1101 } else { 65 };
+                let count = cx.ch.forced("enumerated_count", nmax, cx.run_index) as usize;
+                let s = Suite::from_idx(k - n_ops);
+                let api = rm::api_id(s, cx.run_index / nmax % 2 == 1);
+                let a1 = api.clone();
+                cx.count("n.enumerated_generator_counts");
+                Op { label: format!("create_generators({},{count},enumerated)", s.name()), compare_octets: true,
+                    lib: Arc::new(Box::new(move || Ok(api::generators(s, count, Some(&a1)).concat()))),
+                    model: Box::new(move || { use group::Curve; Ok(rm::create_generators(s, count, &api).map_err(|e| e.to_string())?.iter().flat_map(|p| p.to_affine().to_compressed()).collect()) }) }
+            } else { gen_op(cx, k, &h) };
             let node = nodes[cx.ch.choose("on_node", nodes.len() as u64) as usize];
             let lib = op.lib.clone();
             let label = op.label.clone();
